@@ -597,6 +597,9 @@ def signature_edit(rng, desc):
                     c, dd = kw.get("c", NONE), kw.get("d", NONE)
                     if c == dd:
                         continue
+                    # a meta-flagged configuration is outside the signature wherever it sits: not a signature edit
+                    if any(v["t"] == "ref" and _meta_of(d, v["n"]) is True for v in (c, dd)):
+                        continue
                     put("c", dd)
                     put("d", c)
                     return d, kind, i, "raw"
